@@ -161,6 +161,7 @@ func (r *Run) fireTimers() {
 			if !r.branch(due) {
 				continue
 			}
+			scheduled := t.due // the value delivered on the channel is the scheduled instant
 			if t.period == nil {
 				t.fired = true
 			} else {
@@ -176,7 +177,7 @@ func (r *Run) fireTimers() {
 				r.goCall(fn, nil, "timer func")
 			} else if t.ch != nil {
 				if len(t.ch.buf) < t.ch.cap || liveWaiter(&t.ch.recvq) != nil {
-					r.doSend(t.ch, r.timeValue(r.nowT))
+					r.doSend(t.ch, r.timeValue(scheduled))
 				}
 			}
 			progress = progress || t.period == nil
